@@ -97,15 +97,15 @@ PROPS = {
     ),
     "C08": dict(
         design_ref="DESIGN.md 5.8",
-        level_text="Writer-level clauses proved for every operation history on the CodeWriter model (CR-free text): the mapper always stands at the line/column of the end of the buffer, pending whitespace and comments included; a mapping is recorded at the position where the next text starts; segments are sorted by generated position. The segment-to-lexeme clause (each segment links the same token in source and output) is explored by the oracle with an independent Source Map decoder; encoding conformance is C09, token start positions are C10.",
+        level_text="Coq theorems over the writer/mapper model and the printer regenerated from ast.go: for every CR-free writer history the mapper stands at the line/column of the end of the buffer; a mapping is recorded where the next text starts (after pending whitespace); segments are sorted by generated position; and SEGMENT LEVEL, for every program of the grammar lexed from a CR-free source: every recorded segment (C09: exactly what the mappings string decodes to) points from a generated position where the code spells the text of a token to the source position where that very token starts, a named segment carries the identifier's spelling (C08_segments_link_lexemes: every configuration whose post-processing leaves the buffer as written - always so for compact output, C08_segments_link_lexemes_compact); every identifier occurrence of the source is covered by a named segment in every configuration (C08_identifiers_covered). Pretty output whose post-processing trims something (leading trivia KF10, blanks inside literals KF3) and lone CR in generated text (KF17) are the recorded findings reported by the oracle.",
         level_note="Trusted: Coq kernel, translator xjs2v (WriteTo bodies), extraction, harness/driver correspondence (print and smap suites compare Code, Mappings and Names). Modelled not verified: CodeWriter and compiler.Compile post-processing.",
         technique="Coq proof (invariant over writer operation histories) + model/implementation correspondence",
         suites=[dict(suite="writer", n_quick=3000, n_thorough=100000, what="random histories of the exported CodeWriter methods: buffer, indent level, mappings"),
                 dict(suite="print", n_quick=1500, n_thorough=50000, what="trees x compiler configurations: code, mappings, names, panic"),
                 dict(suite="smap", n_quick=1000, n_thorough=50000, what="SourceMapper histories")],
         oracle_n_quick=1500, oracle_n_thorough=50000,
-        explanation="C08 (writer clauses): C08_writer_position, C08_mapping_at_token_start, C08_sorted.",
-        open_statements=["C08_segments_link (segment links identical lexemes through lexing of the output)", "C08_identifiers_named"],
+        explanation="C08: C08_writer_position, C08_mapping_at_token_start, C08_sorted, C08_segments_link_lexemes, C08_segments_link_lexemes_compact, C08_identifiers_covered.",
+        open_statements=["segment linking for pretty output when cleanEmptyLines changes the buffer: false on the unchanged tree (KF10, KF3); explored by the oracle"],
         assumptions=["line/column = (LF count, bytes since last LF); a CR inside written text is outside the theorem (the mapper counts CR as a line break, the lexer does not)"],
     ),
     "C06": dict(
@@ -186,7 +186,7 @@ PROPS = {
     ),
     "C01": dict(
         design_ref="DESIGN.md 4 (C01), 4.1",
-        level_text="Coq theorems, for every program of the subset grammar (Grammar.v) and EVERY output configuration (compact; pretty with any blank indent unit, with or without semicolons; with or without source map): lexing spells every keyword/operator/punctuation token canonically; the parser returns exactly the ECMAScript tree of the token sequence without error (C02); compiling it never panics; and the code, with layout bytes (blank, tab, line breaks, ';') removed, is byte for byte the source's token texts in source order - no token is dropped, added, reordered or respelled except the quotes of string literals, whose value is preserved (C07). Together with the text-level round trip (C03) this is the reason the output behaves like the source: a JavaScript engine sees the same token sequence up to layout and statement terminators. Executing source and output is not expressible in the model (no JavaScript semantics can be installed); it is explored by the oracle with node 20 on generated terminating programs in every configuration.",
+        level_text="Coq theorems, for every program of the subset grammar (Grammar.v) lexed from a source text and EVERY output configuration (compact; pretty with any blank indent unit, with or without semicolons; with or without source map): lexing spells every keyword/operator/punctuation token canonically; the parser returns exactly the ECMAScript tree of the token sequence without error (C02); compiling it never panics; the code, with layout bytes (blank, tab, line breaks, ';') removed, is byte for byte the source's token texts in source order - no token is dropped, added, reordered or respelled except the quotes of string literals, whose value is preserved (C07) (C01_source_to_code); and ROUND TRIP (C01_compact_round_trip): the compact output lexes and parses back, without error, to the tree it was printed from - the emitted JavaScript text is a spelling of the same tree. Executing source and output is not expressible in the model (no JavaScript semantics can be installed); it is explored by the oracle with node 20 on generated terminating programs in every configuration.",
         level_note="Partial by construction: the theorems stop at the token sequence of the output (and at the tree for expression statements, C03b); that equal token sequences with JavaScript's own semicolon insertion behave equally is the semantics of JavaScript, not modelled. Pretty configurations are covered for comment-free trees (comments are C15). Trusted: Coq kernel, translator xjs2v (tables, predicates, WriteTo bodies), extraction, harness/driver correspondence (lex, parse, print, writer suites), Grammar.v and TokenSpec.v as specification. Recorded findings KF1, KF2 (semicolons off), KF3 (pretty trims inside backtick literals), KF9, KF16 are reported by the oracle.",
         technique="Coq proof (induction over the grammar's matchers against the generated printer; writer invariant over operation lists) + model/implementation correspondence",
         suites=[dict(suite="lex", n_quick=3000, n_thorough=100000, what="byte strings: all token fields", projection=POS_FREE),
@@ -194,9 +194,10 @@ PROPS = {
                 dict(suite="print", n_quick=2000, n_thorough=50000, what="trees x compiler configurations: code", projection=CODE_ONLY),
                 dict(suite="writer", n_quick=2000, n_thorough=50000, what="random histories of the exported CodeWriter methods: buffer, indent level", projection=WRITER_NOMAP)],
         oracle_n_quick=120, oracle_n_thorough=4000, oracle_n_search=600,
-        explanation="C01: C01_tokens_preserved, C01_lexer_canonical, C01_code_tokens, C01_source_to_code.",
+        explanation="C01: C01_tokens_preserved, C01_lexer_canonical, C01_code_tokens, C01_source_to_code, C01_compact_round_trip.",
         open_statements=["C01_behaviour (same printed values and completion in a JavaScript engine): not expressible without a JavaScript semantics; explored by the oracle with node 20"],
-        assumptions=["layout bytes inside string literals are compared modulo layout by the token theorem; their exact bytes are C07_string_printed / C07_backtick"],
+        assumptions=["layout bytes inside string literals are compared modulo layout by the token theorem; their exact bytes are C07_string_printed / C07_backtick",
+                     "round trip: strings_stable - every string-literal token re-scans to itself between double quotes; fails only for literals that are not valid JavaScript (an incomplete \\x / \\u escape directly followed by text that completes it after decoding, e.g. \"\\x\\x41\")"],
     ),
     "C02": dict(
         design_ref="DESIGN.md 4 (C02)",
